@@ -8,6 +8,7 @@ package main
 import (
 	"math"
 	"math/rand"
+	"sort"
 
 	"google.golang.org/protobuf/encoding/protowire"
 	"google.golang.org/protobuf/proto"
@@ -21,6 +22,8 @@ type gen struct {
 	floatDeltas []float64
 	nsDeltas    []int64
 	special     bool // allow NaN / ±Inf / huge durations
+	noUnknown   bool // never produce unknown fields
+	noNegZero   bool // never produce -0 (proto.Clone, used by the read-mask filter, drops an implicit -0)
 }
 
 var floatDomain = []float64{0, 1, 1.5, 2, -1, 8, 9, 10, 100, 110, 112.5, 0.125, -8, 16}
@@ -32,9 +35,17 @@ var secDomain = []int64{0, 1, 2, 1000, -1, 1001}
 var nanoDomain = []int64{0, 1, 500000000, 999999999}
 var hugeSecs = []int64{9223372036, -9223372036, 9223372037, -9223372037, 4611686019, -4611686019}
 
+func (g *gen) specialFloat() float64 {
+	f := floatSpecial[g.r.Intn(len(floatSpecial))]
+	if g.noNegZero && f == 0 {
+		return 0
+	}
+	return f
+}
+
 func (g *gen) float() float64 {
 	if g.special && g.r.Intn(6) == 0 {
-		return floatSpecial[g.r.Intn(len(floatSpecial))]
+		return g.specialFloat()
 	}
 	if g.r.Intn(4) == 0 {
 		return float64(g.r.Intn(4001)-2000) / 8
@@ -176,7 +187,7 @@ func (g *gen) populate(m pref.Message, depth int) {
 			m.Set(fd, g.value(m, fd, depth))
 		}
 	}
-	if g.r.Intn(6) == 0 {
+	if !g.noUnknown && g.r.Intn(6) == 0 {
 		var u []byte
 		for n := g.r.Intn(3) + 1; n > 0; n-- {
 			u = append(u, g.unknownRecord()...)
@@ -216,10 +227,16 @@ func collectSites(m pref.Message, out *[]site) {
 				collectSites(l.Get(j).Message(), out)
 			}
 		} else if fd.IsMap() && fd.MapValue().Kind() == pref.MessageKind {
-			m.Get(fd).Map().Range(func(_ pref.MapKey, v pref.Value) bool {
-				collectSites(v.Message(), out)
-				return true
+			// map iteration order is random: visit in key order so that a seed determines the run
+			mp := m.Get(fd).Map()
+			var keys []pref.MapKey
+			mp.Range(func(k pref.MapKey, _ pref.Value) bool { keys = append(keys, k); return true })
+			sort.Slice(keys, func(i, j int) bool {
+				return encScalar(fd.MapKey().Kind(), keys[i].Value()) < encScalar(fd.MapKey().Kind(), keys[j].Value())
 			})
+			for _, k := range keys {
+				collectSites(mp.Get(k).Message(), out)
+			}
 		} else if !fd.IsList() && !fd.IsMap() && fd.Kind() == pref.MessageKind {
 			collectSites(m.Get(fd).Message(), out)
 		}
@@ -245,7 +262,7 @@ func (g *gen) nudgeFloat(f float64) float64 {
 	switch g.r.Intn(8) {
 	case 0:
 		if g.special {
-			return floatSpecial[g.r.Intn(len(floatSpecial))]
+			return g.specialFloat()
 		}
 	case 1:
 		// relative step: f/8, f/4 (exact for the domain)
@@ -253,7 +270,9 @@ func (g *gen) nudgeFloat(f float64) float64 {
 		g.floatDeltas = append(g.floatDeltas, math.Abs(d))
 		return f + d
 	case 2:
-		return -f
+		if f != 0 || !g.noNegZero {
+			return -f
+		}
 	}
 	d := floatSteps[g.r.Intn(len(floatSteps))]
 	g.floatDeltas = append(g.floatDeltas, math.Abs(d))
@@ -299,6 +318,9 @@ func (g *gen) mutate(root pref.Message, depth int) string {
 			break
 		}
 	}
+	for s.fd == nil && g.noUnknown {
+		s = ss[g.r.Intn(len(ss))]
+	}
 	m, fd := s.m, s.fd
 	if fd == nil {
 		return g.mutateUnknown(m)
@@ -333,6 +355,9 @@ func (g *gen) mutate(root pref.Message, depth int) string {
 		mp := m.Mutable(fd).Map()
 		var keys []pref.MapKey
 		mp.Range(func(k pref.MapKey, _ pref.Value) bool { keys = append(keys, k); return true })
+		sort.Slice(keys, func(i, j int) bool {
+			return encScalar(fd.MapKey().Kind(), keys[i].Value()) < encScalar(fd.MapKey().Kind(), keys[j].Value())
+		})
 		switch op := g.r.Intn(3); {
 		case op == 0 || len(keys) == 0:
 			mp.Set(g.mapKey(fd), g.mapValue(m, fd, depth))
